@@ -155,6 +155,15 @@ def sweep_scenarios(task):
     rng = Rng(task['seed'])
     prod, data = gen.gen_base_file(rng, max_changes=1, max_files=2)
 
+    for _ in range(40):
+        # (37 442 readings per file, a third of them with blocks of a few
+        # bytes: the grid is run over files of ordinary size - large ones
+        # are read under sampled configurations by the random classes)
+        if len(data) <= 2500:
+            break
+
+        prod, data = gen.gen_base_file(rng, max_changes=1, max_files=2)
+
     try:
         nsec = max(1, len(R.ref_parse(data)))
     except R.RefReject:
